@@ -308,7 +308,14 @@ def set (s : MState) (now : Int) (key value : Bytes) (keepTTL : Bool) : R :=
     (emit (signal s key) (opSet key value keepTTL), .unit)
 
 def getSet (s : MState) (now : Int) (key value : Bytes) : R :=
-  let (s, _) := writeKey s now key (some (.str []))
+  let (s, ok) := writeKey s now key none
+  if !ok then
+    -- no such key: a brand-new record (as in SETNX), and there is no old value
+    let s := newKeyWith s key none (.str [])
+    let s := setVal s key (.str value)
+    let s := setExp s key 0
+    (emit (signal s key) (opSet key value false), .bytes none)
+  else
   match asStr s key with
   | none => (s, .panic)
   | some old =>
